@@ -54,6 +54,10 @@ def obligations(tier):
         obs.append(Ob(f"C01.meta.t{rtype}", "X", "read_metadata: n records, byte_range[i]=(720+i*L+H, 720+(i+1)*L), each record parsed from its own bytes; "
                       "sequential tiling reads", FUNCS_IO, bounds=f"forall 12<=H<L; n in {ns[0]}..{ns[-1]}, rpc in 1..{rpcs[-1]}",
                       harness="harness/h_image.py", func="meta_ok", params={"ns": ns, "rpcs": rpcs, "rtype": rtype}, timeout=300))
+    obs.append(Ob("C01.meta.seq", "X", "one process indexing files of both record types with equal record length and line count, in sequence (10, 11, 10): every file gets "
+                  "the byte ranges of its own prefix length - nothing is remembered between files", FUNCS_IO,
+                  bounds=f"forall 12<=H1,H2<L; n in {ns[0]}..{min(ns[-1], 3)}, rpc in 1..{min(rpcs[-1], 3)}", harness="harness/h_image.py", func="meta_seq_ok", state_witness=["meta_seq_ok(544, 192, 560)", "meta_seq_ok(192, 544, 560)"],
+                  params={"ns": [x for x in ns if x <= 3], "rpcs": [x for x in rpcs if x <= 3]}, timeout=300))
     for tc, name in (("IU2", "IMG-HH-ALOS2290760600-191011-WBDR1.5GUD"), ("C*8", "IMG-HV-ALOS2290760600-191011-WBDR1.1__D-F2")):
         obs.append(Ob(f"C01.open.{tc.replace('*', '')}", "X", "open_image(use_cache=False): Array gets exactly the parsed byte ranges, header shape and type code, "
                       "the image's own url and a filesystem rooted at the product; a full load returns file[start_i:stop_i] of that url per line, in order",
